@@ -11,7 +11,7 @@ use oracle::rng::{mix, Rng};
 use serde_json::json;
 
 pub const ID: &str = "C01";
-pub const FAMS: [&str; 4] = ["boundary", "auto-version", "every-length", "random-length"];
+pub const FAMS: [&str; 7] = ["boundary", "auto-version", "every-length", "random-length", "real-world-prefixes", "crafted", "forced-mode-outside-alphabet"];
 
 pub fn jobs(ctx: &Ctx) -> Vec<Job> {
     let caps = &ctx.caps;
@@ -67,6 +67,52 @@ pub fn jobs(ctx: &Ctx) -> Vec<Job> {
             }
         }
     }
+    // what people put into QR codes, and byte sequences that mean something to some layer (byte order
+    // marks, GS1/AIM escapes, control characters, multi-byte text): every dictionary prefix alone and with
+    // tails, automatic and forced mode, automatic version
+    for (i, (class, payload)) in crate::job::prefix_sweep(ctx.seed).into_iter().enumerate() {
+        k += 1;
+        let level = i % 4;
+        let mode = match i % 3 {
+            0 => None,
+            1 => Some(class),
+            _ => Some(2),
+        };
+        jobs.push(Job { fam: FAMS[4], class, mode, level: if i % 5 == 0 { None } else { Some(level) }, version: None, mask: rotate_mask(k), len: payload.len(), payload: Some(payload), seed: mix(ctx.seed, k as u64), ..Default::default() });
+    }
+    // crafted byte payloads (craft.rs): data area equal to mask patterns, uniform, stripes; per-block shapes
+    for v in ctx.tier.pick(vec![1usize, 2, 5, 9, 10, 14, 22, 26, 27, 33, 40], (1..=40).collect()) {
+        for level in 0..4usize {
+            for t in 0..crate::craft::TARGET_COUNT {
+                k += 1;
+                if ctx.tier == Tier::Quick && (v + level + t) % 3 != 0 {
+                    continue;
+                }
+                jobs.push(Job::crafted(FAMS[5], crate::job::CRAFT_TARGET, t, v, level, rotate_mask(k), mix(ctx.seed, k as u64)));
+            }
+            for sh in 0..crate::craft::CW_SHAPE_COUNT {
+                k += 1;
+                jobs.push(Job::crafted(FAMS[5], crate::job::CRAFT_SHAPE, sh, v, level, rotate_mask(k), mix(ctx.seed, k as u64)));
+            }
+        }
+    }
+    // a forced mode whose alphabet does NOT contain the input: the crate documents an assertion failure there,
+    // which is outside the property; but IF a symbol is returned it must decode to the input like any other
+    {
+        let mut rng = Rng::new(ctx.seed ^ 0xf01);
+        for i in 0..ctx.tier.pick(600, 20_000) {
+            k += 1;
+            let mode = i % 2; // Numeric or Alphanumeric forced
+            let len = 1 + rng.below(40);
+            let mut p = crate::job::gen_payload(mode, len, rng.below(GEN_COUNT), rng.next_u64());
+            let foreign: &[u8] = if mode == 0 { b"A:/ az,\x00\xff-+" } else { b"abcxyz,;!_\x00\x7f\x80\xff@#" };
+            for _ in 0..1 + rng.below(2) {
+                let at = rng.below(p.len());
+                p[at] = *rng.pick(foreign);
+            }
+            jobs.push(Job { fam: FAMS[6], class: 2, mode: Some(mode), level: Some(rng.below(4)), version: if rng.chance(1, 2) { None } else { Some(1 + rng.below(10)) }, mask: rotate_mask(k), len: p.len(), payload: Some(p), seed: mix(ctx.seed, k as u64), ..Default::default() });
+        }
+    }
     if ctx.tier == Tier::Thorough {
         let mut rng = Rng::new(ctx.seed ^ 0xc01);
         for v in 1..=40usize {
@@ -99,9 +145,35 @@ pub fn jobs(ctx: &Ctx) -> Vec<Job> {
     jobs
 }
 
+/// family "forced-mode-outside-alphabet": no symbol is demanded, but a returned one must decode to the input
+fn observe_foreign(st: &mut Stats, job: &Job) {
+    let cfg = job.config();
+    match adapter::build(&cfg) {
+        Outcome::Ok(qr) => {
+            let m = adapter::matrix_of(&qr);
+            match symbol::check_roundtrip(&m, &cfg.input) {
+                Ok(_) => st.count("foreign_input_symbols_that_round_trip", 1),
+                Err(v) => flag(st, ID, (format!("returned-symbol-{}", v.0), format!("the forced mode's alphabet does not contain the input, yet a symbol was returned, and it does not decode to the input: {}", v.1)), job, false),
+            }
+        }
+        _ => {
+            st.count("foreign_input_refused", 1);
+            st.distinct(job.key(&cfg.input));
+        }
+    }
+}
+
 pub fn observe(ctx: &Ctx, st: &mut Stats, job: &Job) {
     let cfg = job.config();
     st.eval();
+    if job.fam == FAMS[6] {
+        return observe_foreign(st, job);
+    }
+    if job.fam == FAMS[4] {
+        st.count("real_world_prefix_payloads", 1);
+    } else if job.fam == FAMS[5] {
+        st.count("crafted_payloads", 1);
+    }
     let exp = match symbol::expect(&cfg, &ctx.caps) {
         Ok(e) => e,
         Err(why) => {
@@ -151,14 +223,14 @@ pub fn run(ctx: &Ctx) -> Report {
     let st = pool::run(&jobs, ctx.remaining(), |st, job, _| observe(ctx, st, job));
     let mut rep = Report::new(
         st,
-        "jobs = (version x level x forced mode|auto) x boundary lengths {0,1,cap(v-1)+1,cap-1,cap} with forced and automatic version, mask rotating over 0..7 and automatic, payload generator rotating over 7 generators (thorough: every length for v<=6, random lengths above); each execution builds through QRBuilder and decodes the module values with the oracle reference decoder; distinct key = (mode,level,version,mask options, len, payload hash); non-trivial = non-empty payload",
+        "jobs = (version x level x forced mode|auto) x boundary lengths {0,1,cap(v-1)+1,cap-1,cap} with forced and automatic version, mask rotating over 0..7 and automatic, payload generator rotating over 11 generators (thorough: every length for v<=6, random lengths above) + every entry of a dictionary of real-world prefixes and magic byte sequences (URL schemes in both cases, WIFI:/vCard/MECARD, byte order marks, GS1/AIM escapes, control bytes, multi-byte text) alone and with tails + crafted byte payloads (data area equal to a mask pattern / uniform / stripes; blocks of padding pattern / zeros / identical blocks) + inputs outside the forced mode's alphabet (a symbol, if returned, must still decode to the input); each execution builds through QRBuilder and decodes the module values with the oracle reference decoder; distinct key = (mode,level,version,mask options, len, payload hash); non-trivial = non-empty payload",
     );
     rep.expected_sets = vec![("version_level", 160), ("version_mask", 320), ("class_mode", 9), ("forced_bits", 16)];
     rep.required_sets = vec![("version_level", 160), ("version_mask", 320), ("class_mode", 9)];
     rep.min_evaluations = 3000;
     rep.assumptions = vec![
         "oracle decoder = my reading of ISO/IEC 18004:2015, validated each run against symbols from the independent qrcode crate".into(),
-        "payload contents are sampled (7 generators), configurations at the listed boundaries are enumerated".into(),
+        "payload contents are sampled (11 generators + dictionary + crafted), configurations at the listed boundaries are enumerated".into(),
     ];
     rep
 }
